@@ -1634,6 +1634,34 @@ func (g *c12Gen) famCaps(k int) {
 	}
 }
 
+// the embedder's hook edits the metadata between the two validations
+func (g *c12Gen) famHook(k int) {
+	r, s := g.R, g.srv
+	a := g.create(g.goodDoc(), false, Hook{}, "A")
+	hooks := []Hook{
+		{Kind: "reject"},
+		{Kind: "set", K: "client_name", V: jStr("named by the embedder")},
+		{Kind: "set", K: "grant_types", V: jArr(pick(r, append(notIn([]string{gCC, gAC, gImpl, gRefresh}, s.Grants), "bogus")))},
+		{Kind: "set", K: "token_endpoint_auth_method", V: jStr(pick(r, append(notIn(methodUniverse, s.AuthMethods), "bogus")))},
+		{Kind: "set", K: "scope", V: jStr(pick(r, append(notIn(scopeUniverse, s.scopeIDs()), "unknown-scope")))},
+		{Kind: "set", K: "subject_type", V: jStr(pick(r, []string{"pairwise", "public", "bogus"}))},
+		{Kind: "set", K: "id_token_signed_response_alg", V: jStr(pick(r, sigUniverse))},
+		{Kind: "set", K: "scope", V: jStr("openid")},
+	}
+	for i := 0; i < 4; i++ {
+		hk := hooks[(k*4+i)%len(hooks)]
+		why := "hook " + hk.Kind + " " + hk.K
+		if a != nil && i%2 == 0 {
+			g.update(a, g.tokOf(a, "current"), g.goodDoc(), false, hk, why)
+		} else if c := g.create(g.goodDoc(), false, hk, why); c != nil && a == nil {
+			a = c
+		}
+	}
+	if a != nil {
+		g.do(DOp{Kind: "Read", Cid: a.ID, Tok: g.tokOf(a, "current"), Why: "read back"})
+	}
+}
+
 func (g *c12Gen) randomHook() Hook {
 	r := g.R
 	switch r.Intn(5) {
@@ -1729,6 +1757,8 @@ func runC12History(seed int64, k int, fam string) c12Case {
 		g.famMembers(k)
 	case "caps":
 		g.famCaps(k)
+	case "hook":
+		g.famHook(k)
 	default:
 		g.famRandom(k)
 	}
@@ -1780,6 +1810,7 @@ func init() {
 		add("rotation", ctx.N(16, 300))
 		add("members", ctx.N(24, 400))
 		add("caps", ctx.N(56, 800))
+		add("hook", ctx.N(12, 200))
 		add("random", ctx.N(24, 500))
 		cases := make([]c12Case, len(jobs))
 		var wg sync.WaitGroup
@@ -1852,6 +1883,6 @@ func init() {
 		_ = os.WriteFile(filepath.Join(ctx.Out, "cases.json"), jb, 0o644)
 		ctx.Meta.Cases = len(cases)
 		ctx.Meta.Distinct = len(seen)
-		ctx.Meta.Rule = "CRUD histories on dynamic clients of the real provider, in five families (token guard catalogue: operation x token kind; rotation on/off; odd request members; capability fields against random server feature sets; random mixes), both storage flavours; distinct by (operations, outcome) trace; non-trivial = at least one accepted and one refused operation"
+		ctx.Meta.Rule = "CRUD histories on dynamic clients of the real provider, in six families (token guard catalogue: operation x token kind; rotation on/off; odd request members; capability fields against random server feature sets; scripted embedder hook between the two validations; random mixes), both storage flavours; distinct by (operations, outcome) trace; non-trivial = at least one accepted and one refused operation"
 	}})
 }
